@@ -40,6 +40,8 @@ pub fn run_line(line: &str, scratch: &str) -> String {
         "hash" => by_width!(c, op_hash),
         "build" => by_width!(c, op_build, scratch),
         "hist" => by_width!(c, op_hist, scratch),
+        "skf" => by_width!(c, op_skf, scratch),
+        "skfaults" => by_width!(c, op_skfaults, scratch),
         "build2" => by_width!(c, op_build2, scratch),
         "map" => by_width!(c, op_map, scratch),
         "alnw" => op_alnw(c),
@@ -486,4 +488,131 @@ fn op_build2<IntT: for<'a> UInt<'a>>(c: &Case, scratch: &str) -> String {
     let cb = Case::parse(&line_b);
     let b = guarded(|| op_build::<IntT>(&cb, scratch));
     format!("{} eq:{}", a, (a == b) as u8)
+}
+
+// ------------------------------------------------------------------ C09 / C19: persistence
+
+use std::io::Read;
+
+fn hex(bytes: &[u8]) -> String {
+    let mut s = String::with_capacity(bytes.len() * 2);
+    for b in bytes {
+        s.push_str(&format!("{:02x}", b));
+    }
+    if s.is_empty() {
+        s.push('.');
+    }
+    s
+}
+
+fn unframe_real(bytes: &[u8]) -> Result<Vec<u8>, String> {
+    let mut out = Vec::new();
+    let mut dec = snap::read::FrameDecoder::new(bytes);
+    match dec.read_to_end(&mut out) {
+        Ok(_) => Ok(out),
+        Err(e) => Err(e.to_string()),
+    }
+}
+
+/// the dispatch of lib.rs: try u64, then u128
+fn load_any(path: &str) -> Result<String, String> {
+    if let Ok(a) = MergeSkaArray::<u64>::load(path) {
+        return Ok(format!("64|{}", dump_full(&a)));
+    }
+    match MergeSkaArray::<u128>::load(path) {
+        Ok(a) => Ok(format!("128|{}", dump_full(&a))),
+        Err(e) => Err(e.to_string()),
+    }
+}
+
+fn dump_full<IntT: for<'a> UInt<'a>>(a: &MergeSkaArray<IntT>) -> String {
+    // Display carries ska_version, k, k_bits, rc, counts; dump_array the rows
+    let disp = format!("{}", a).replace('\n', ";");
+    format!("{}|{}", disp, dump_array(a))
+}
+
+/// `skf`: save a table, return the raw CBOR bytes (frames removed by snap itself),
+/// what both widths make of the file, and the content through the dispatch.
+fn op_skf<IntT: for<'a> UInt<'a>>(c: &Case, scratch: &str) -> String {
+    let dir = format!("{scratch}/skf");
+    std::fs::create_dir_all(&dir).unwrap();
+    let path = format!("{dir}/x.skf");
+    let a = make_array::<IntT>(c.usize("k"), c.flag("rc"), c.get("table"));
+    a.save(&path).unwrap();
+    let bytes = std::fs::read(&path).unwrap();
+    let raw = unframe_real(&bytes).unwrap();
+    let l64 = MergeSkaArray::<u64>::load(&path).is_ok();
+    let l128 = MergeSkaArray::<u128>::load(&path).is_ok();
+    let any = load_any(&path).unwrap_or_else(|e| format!("err:{e}"));
+    let _ = std::fs::remove_dir_all(&dir);
+    format!("hex={} load64={} load128={} any={}", hex(&raw), l64 as u8, l128 as u8, any.replace(' ', "_"))
+}
+
+/// `skfaults`: every truncation point and every single-bit flip of a saved file.
+/// Result: counts per outcome class through the real loader, the faults that
+/// were accepted with DIFFERENT content (must be none), and the outcome of
+/// snap's frame decoder for each fault (for the model cross-check).
+fn op_skfaults<IntT: for<'a> UInt<'a>>(c: &Case, scratch: &str) -> String {
+    let dir = format!("{scratch}/skfaults");
+    std::fs::create_dir_all(&dir).unwrap();
+    let path = format!("{dir}/x.skf");
+    let a = make_array::<IntT>(c.usize("k"), c.flag("rc"), c.get("table"));
+    a.save(&path).unwrap();
+    let bytes = std::fs::read(&path).unwrap();
+    let good = load_any(&path).unwrap();
+    let stride = c.usize_or("stride", 1);
+    let bad_path = format!("{dir}/bad.skf");
+    let (mut rejected, mut same, mut different) = (0usize, 0usize, 0usize);
+    let mut diffs: Vec<String> = Vec::new();
+    let mut frames: Vec<String> = Vec::new();
+    let mut eval = |tag: String, data: &[u8]| {
+        std::fs::write(&bad_path, data).unwrap();
+        match load_any(&bad_path) {
+            Err(_) => rejected += 1,
+            Ok(s) if s == good => same += 1,
+            Ok(_) => {
+                different += 1;
+                if diffs.len() < 5 {
+                    diffs.push(tag.clone());
+                }
+            }
+        }
+        let fr = match unframe_real(data) {
+            Ok(v) => format!("ok{}", crc_simple(&v)),
+            Err(_) => "err".to_string(),
+        };
+        frames.push(format!("{tag}:{fr}"));
+    };
+    for cut in (0..bytes.len()).step_by(stride) {
+        eval(format!("t{cut}"), &bytes[..cut]);
+    }
+    let mut work = bytes.clone();
+    for i in (0..bytes.len()).step_by(stride) {
+        for bit in 0..8 {
+            work[i] ^= 1 << bit;
+            eval(format!("f{i}.{bit}"), &work);
+            work[i] ^= 1 << bit;
+        }
+    }
+    let _ = std::fs::remove_dir_all(&dir);
+    format!(
+        "file={} len={} rejected={} same={} different={} diffs={} frames={}",
+        hex(&bytes),
+        bytes.len(),
+        rejected,
+        same,
+        different,
+        join(&diffs),
+        join(&frames)
+    )
+}
+
+/// a simple order-sensitive checksum of a byte string (to compare decoder outputs)
+fn crc_simple(v: &[u8]) -> u64 {
+    let mut h: u64 = 1469598103934665603;
+    for b in v {
+        h ^= *b as u64;
+        h = h.wrapping_mul(1099511628211);
+    }
+    h
 }
